@@ -171,7 +171,7 @@ pub fn worker(ctx: &WorkerCtx) -> Report {
         }
     };
     let info = arch_info(Arch::X86);
-    let cfg = FunCfg { thorough: ctx.tier.thorough(), with_unsequenced: false };
+    let cfg = FunCfg { thorough: ctx.tier.thorough(), small_max: 0, with_unsequenced: false };
     {
         let mut handle = |case: FunCase| {
             if ctx.out_of_time() {
